@@ -79,6 +79,11 @@ func exprText(fn *ssa.Function, v ssa.Value) string {
 }
 
 func (a *Act) instr(in ssa.Instruction) {
+	if v, ok := in.(ssa.Value); ok {
+		a.curSite = v
+	} else {
+		a.curSite = nil
+	}
 	switch x := in.(type) {
 	case *ssa.DebugRef:
 		return
